@@ -93,6 +93,8 @@ def upd_specs():
     specs = [["simple", v] for v in SIMPLE_VALUES]
     # values that are not a dict or a list themselves but hold some (a tuple of cut ranges)
     specs += [["simpletuple", [[0, 1], [2, 3]]], ["simpletuple", [{"k": [1]}, 5]]]
+    # user objects: hashable like every plain object, and mutable
+    specs += [["simpleobj", "bare"], ["simpleobj", "in-tuple"], ["simpleobj", "in-dict"]]
     specs += [["str", [["fld", p]]] for p in SINGLE_FIELDS]
     specs += [["str", m] for m in MULTI]
     return specs
@@ -210,8 +212,30 @@ class Ctl(object):
                 self.obs.count("violating_checks_folded", n - 1)
 
 
+class _Cut(object):
+    """A user object given as an update value or a default: hashable (by identity, as any plain
+    object) and mutable."""
+
+    def __init__(self, lo=0, hi=1):
+        self.range = [lo, hi]
+
+    def __eq__(self, other):
+        return type(other) is _Cut and other.range == self.range
+
+    def __ne__(self, other):
+        return not self == other
+
+    __hash__ = object.__hash__
+
+    def __repr__(self):
+        return "_Cut(%r, %r)" % tuple(self.range)
+
+
 def mids(v, acc):
-    if type(v) is dict:
+    if type(v) is _Cut:
+        acc.add(id(v))
+        mids(v.range, acc)
+    elif type(v) is dict:
         acc.add(id(v))
         for x in v.values():
             mids(x, acc)
@@ -804,6 +828,9 @@ def run_upd(r, obs, ctl):
     sub, spec, ctxs = r["sub"], r["spec"], r["ctxs"]
     if spec[0] == "simpletuple":
         spec = ["simple", tuple(R.cp(x) for x in spec[1])]
+    if spec[0] == "simpleobj":
+        spec = ["simple", {"bare": _Cut(), "in-tuple": (_Cut(1, 2), 5),
+                           "in-dict": {"cut": _Cut(2, 3)}}[spec[1]]]
     substr = ".".join(sub)
     if spec[0] == "simple":
         pieces, flds, single = None, [], False
@@ -813,7 +840,8 @@ def run_upd(r, obs, ctl):
         single = len(pieces) == 1 and pieces[0][0] == "fld"
     changed_any = False
     for value, (dname, dflt), skip, rais, rec in itertools.product(
-            (False, True), (("unset", UNSET), ("scalar", 7), ("dict", {"d": [1]})),
+            (False, True), (("unset", UNSET), ("scalar", 7), ("dict", {"d": [1]}),
+                            ("object", (_Cut(5, 6), "u"))),
             (False, True), (False, True), (True, False)):
         n_active = int(dflt is not UNSET) + int(skip) + int(rais)
         if spec[0] == "simple":
@@ -1191,3 +1219,5 @@ RULE += (' Added: simple update values that are tuples holding lists / dicts; do
          'up (get_recursively, contains, format_context, UpdateContext value=True) in contexts '
          'that also have keys containing dots; to_string on dictionaries with keys of mutually '
          'unorderable types (may refuse, may not depend on key order).')
+RULE += (' Added: update values and defaults that are (or hold) plain user objects - hashable and '
+         'mutable: the installed value is a deep copy of them too.')
